@@ -239,11 +239,25 @@ def make_rh(tls: bool, addr=("10.9.8.7", 4321)):
     return ns(request=(tls_socket() if tls else object()), client_address=addr)
 
 
+_REAL_EXC_LOG = []
+
+
+def real_exception_log():
+    """Put the real GopherExceptions.log back (it formats the exception with str()); logger.log stays
+    a recorder.  For obligations in which building the log message is part of what can go wrong."""
+    from pygopherd import GopherExceptions
+
+    if _REAL_EXC_LOG:
+        GopherExceptions.log = _REAL_EXC_LOG[0]
+
+
 def silence_logging():
     """Replace logger.log and GopherExceptions.log by recorders that never format.
     Returns (logrec, excrec)."""
     from pygopherd import GopherExceptions, logger
 
+    if not _REAL_EXC_LOG and not isinstance(GopherExceptions.log, Recorder):
+        _REAL_EXC_LOG.append(GopherExceptions.log)
     lr = Recorder()
     er = Recorder()
     logger.log = lr
